@@ -687,3 +687,13 @@ def c12_i(ctx):
     fns.append(ctx.fn('elfi.model.utils:distance_as_discrepancy'))
     scale_free_sweep(ctx, fns, 'a summary whose spread is below the tolerance gets another scale '
                                'than its standard deviation')
+
+
+@obligation('C12-j', 'T2', 'no result buffer takes the dtype of a caller\'s array and then receives '
+            'computed values (shared sweep of C08-l, restricted to the modules this property is '
+            'anchored in; `*_like(x)` and `dtype=x.dtype` allocations)', floor=1,
+            necessary='distances and scales are stored as computed (numpy truncates floats silently when they are assigned into an '
+                      'integer array)')
+def c12_dtype(ctx):
+    from .base import inherited_dtype_obligation
+    inherited_dtype_obligation(ctx, ['elfi.model.elfi_model', 'elfi.model.utils'])
